@@ -159,6 +159,11 @@ def run_modules(cx):
             continue
         mods.append({"name": name.encode(), "cls": "real", "text": text, "deps": [], "risk_used": False})
     mods.append({"name": b"@yang", "cls": "real", "text": b"@yang", "deps": [], "risk_used": False})
+    # corpus: the witness modules of the listed findings (and minimised past failures), always run
+    cdir = os.path.join(paths.CORPUS, "yangstr")
+    for f in sorted(os.listdir(cdir)) if os.path.isdir(cdir) else []:
+        if f.endswith(".yang"):
+            mods.append({"name": ("corpus/" + f).encode(), "cls": "corpus", "text": open(os.path.join(cdir, f), "rb").read(), "deps": [], "risk_used": True})
     n = cx.n(150, 4000)
     for i in range(n):
         cls = "safe" if i % 2 == 0 else c10gen.CLASSES[1 + (i // 2) % (len(c10gen.CLASSES) - 1)]
